@@ -176,7 +176,19 @@ func vf15Child(specPath string) {
 	}
 	h := verifkit.InstallHooks()
 	var hits atomic.Int64
-	h.OnPoint(func(string, int) { hits.Add(1) })
+	// The cache's own flush scheduler (1 s tick) is held at its hand-off point except while a
+	// "bgflush" operation runs, so that which operation a background flush interleaves with is
+	// decided by the history and not by machine load (dry run and crash children then walk
+	// the same sequence of step points outside bgflush).
+	var schedOpen atomic.Bool
+	h.OnPoint(func(name string, _ int) {
+		hits.Add(1)
+		if name == "writecache.sched.handoff" {
+			for !schedOpen.Load() {
+				time.Sleep(time.Millisecond)
+			}
+		}
+	})
 	if sp.CrashName != "" {
 		h.CrashAt(sp.CrashName, sp.CrashK)
 	}
@@ -208,6 +220,7 @@ func vf15Child(specPath string) {
 			// Let the cache's own scheduler work: until the cache is empty, or it has gone
 			// quiet after at least one hand-off (objects may legitimately stay behind), or a
 			// generous bound.  Only decides WHICH crash points exist, never a verdict.
+			schedOpen.Store(true)
 			start, seen, last, lastAt := time.Now(), hits.Load(), hits.Load(), time.Now()
 			for vf15CacheFiles(sp.Dir) > 0 {
 				now := hits.Load()
@@ -224,6 +237,7 @@ func vf15Child(specPath string) {
 				}
 				time.Sleep(5 * time.Millisecond)
 			}
+			schedOpen.Store(false)
 		}
 		res := "ok"
 		if err != nil {
@@ -232,6 +246,7 @@ func vf15Child(specPath string) {
 		j.Append(fmt.Sprintf("%d %s %s", i, op, res))
 	}
 	order := h.Order()
+	schedOpen.Store(true)
 	h.Uninstall()
 	ob, _ := json.Marshal(order)
 	_ = os.WriteFile(sp.Out, ob, 0o644)
